@@ -241,6 +241,10 @@ func (vc *VC) get(st *State, name string) Term {
 	t := vc.declare(name+"@0", s)
 	vc.entry[name] = t
 	vc.entryClosed(name, t)
+	if name == "Mine" {
+		r := Term{"r!q", SInt}
+		vc.fact(Forall([]Term{r}, Not(Select(t, r)), []Term{Select(t, r)}))
+	}
 	return t
 }
 
@@ -289,7 +293,18 @@ func (vc *VC) alloc(st *State, hint string, kind string) Term {
 	st.alloc = a
 	vc.registerComp("Ty", SArr(SInt, SInt))
 	vc.set(st, "Ty", Store(vc.get(st, "Ty"), r, vc.kindTag(kind)))
+	vc.registerComp("Mine", SArr(SInt, SBool))
+	vc.set(st, "Mine", Store(vc.get(st, "Mine"), r, True))
 	return r
+}
+
+// mineFacts: objects not yet allocated are not "mine" (allocated by this
+// activation or handed over by an owning callee).
+func (vc *VC) mineFacts(st *State) {
+	vc.registerComp("Mine", SArr(SInt, SBool))
+	m := vc.get(st, "Mine")
+	r := Term{"r!q", SInt}
+	vc.fact(Forall([]Term{r}, Imp(Select(m, r), And(Le(vc.A0, r), Lt(r, st.alloc))), []Term{Select(m, r)}))
 }
 
 func (vc *VC) kindTag(kind string) Term {
@@ -574,4 +589,11 @@ func valEq(a, b Val) Term {
 		cs = append(cs, Eq(a.L[i], b.L[i]))
 	}
 	return And(cs...)
+}
+
+// mineOrNil: e is nil or an object allocated by this activation (or handed
+// over by an owning callee); implies e == 0 || e >= A0.
+func (vc *VC) mineOrNil(st *State, e Term) Term {
+	vc.registerComp("Mine", SArr(SInt, SBool))
+	return Or(Eq(e, Zero), Select(vc.get(st, "Mine"), e))
 }
